@@ -94,6 +94,21 @@ def loop_ordinal(ex, node):
     raise OutOfReach("loop not found in function")
 
 
+def loop_modified(ex, info, nodes):
+    """what a loop may change: the names / self fields its statements assign, plus -- when a method is called on `self` inside the loop
+    (body or test) -- every field of the function's own frame (`modifies`): the callee's contract may replace those fields, and a loop
+    summary that kept their pre-loop values would be unsound"""
+    mod = assigned_names(nodes)
+    frame = tuple(getattr(info, "modifies", ()) or ()) if info is not None else ()
+    if frame:
+        for top in nodes:
+            for n in ast.walk(top):
+                if isinstance(n, ast.Call) and isinstance(n.func, ast.Attribute) and isinstance(n.func.value, ast.Name) and n.func.value.id == "self":
+                    mod |= {f"self.{f}" for f in frame}
+                    return mod
+    return mod
+
+
 def havoc(ex, st: State, names):
     for n in names:
         if "." in n:
@@ -321,7 +336,7 @@ def _do_for_rest(ex, node, st, seq, bind):
     # 1. invariant holds on entry
     g = eval_clause(ex, info, inv, st, extra0)
     ex.ctx.oblige(st, g, f"inv-init[{k_ord}]", where)
-    mod = assigned_names(node.body) | assigned_names([node.target])
+    mod = loop_modified(ex, info, node.body) | assigned_names([node.target])
     outs = []
     # 2. arbitrary iteration
     sh = st.fork()
@@ -408,7 +423,7 @@ def do_while(ex, node: ast.While, st: State):
     dec = info.clause(f"decreases_{k_ord}")
     where = f"{ex.relpath}:{node.lineno}"
     ex.ctx.oblige(st, eval_clause(ex, info, inv, st, {}), f"inv-init[{k_ord}]", where)
-    mod = assigned_names(node.body)
+    mod = loop_modified(ex, info, node.body + [node.test])
     outs = []
     sh = st.fork()
     havoc(ex, sh, mod)
